@@ -64,6 +64,12 @@ pub fn create_accounts(deps: &mut DepsMut, accounts: &[Cw20Coin]) -> StdResult<U
     let mut total_supply = Uint128::zero();
     for row in accounts {
         let address = deps.api.addr_canonicalize(&row.address)?;
+        // a repeated address would overwrite the earlier balance while both amounts count towards the supply
+        if BALANCES.has(deps.storage, address.as_slice()) {
+            return Err(StdError::generic_err(
+                "Duplicate initial balance addresses",
+            ));
+        }
         BALANCES.save(deps.storage, address.as_slice(), &row.amount)?;
         total_supply += row.amount;
     }
